@@ -2,6 +2,7 @@ package props
 
 import (
 	"net/netip"
+	"slices"
 	"strings"
 
 	"github.com/AdguardTeam/urlfilter"
@@ -29,6 +30,12 @@ var c18Labels = []string{"example", "ads", "tracker", "a", "x1", "my-host", "cdn
 var c18TLDs = []string{"org", "com", "net", "local", "co.uk", "io", "ru", "xn--p1ai", "lan"}
 
 func c18Name(c *core.Ctx, bare bool) string {
+	if c.Rng.Intn(12) == 0 && len(gen.HostGroups) > 0 {
+		// Names whose 32-bit hashes collide (the hosts table is keyed by it).
+		g := gen.HostGroups[c.Rng.Intn(len(gen.HostGroups))]
+
+		return g[c.Rng.Intn(len(g))]
+	}
 	n := 1 + c.Rng.Intn(3)
 	var parts []string
 	for i := 0; i < n; i++ {
@@ -277,7 +284,17 @@ func c18Run(c *core.Ctx, idx int) {
 			c.Violation("dns-engine-host-rules", nil, map[string]any{"list": texts, "query": name, "got": keys(got), "want": keys(want)},
 				"DNSEngine.Match(%q) over %q: got %v matched=%v, expected %v", name, texts, keys(got), matched, keys(want))
 		}
-		for _, p := range append(c18Perturb(name), l.InComment...) {
+		others := append(c18Perturb(name), l.InComment...)
+		for _, g := range gen.HostGroups {
+			if slices.Contains(g, name) {
+				// The other names with the same hash.
+				others = append(others, g...)
+			}
+		}
+		for _, p := range others {
+			if p == name {
+				continue
+			}
 			res, _ = eng.Match(p)
 			c.Eval(1)
 			for _, h := range append(append([]*rules.HostRule{}, res.HostRulesV4...), res.HostRulesV6...) {
@@ -313,6 +330,7 @@ func init() {
 			"when no blank precedes '#', the comment does not start a cosmetic marker (such a line is element-hiding syntax by design)",
 			"names contain no '#' or '$'",
 		},
+		Setup: func(*core.Env) { gen.Collisions() },
 		Cases: func(t core.Tier) int { return sizes[t] },
 		Run:   c18Run,
 	})
